@@ -256,6 +256,15 @@ func (e *Engine) evalSpec(cur, old *State, x SExpr, env *SpecEnv) Val {
 		}
 		return e.retype(v, t)
 	case SIndex:
+		if id, ok := n.X.(SIdent); ok {
+			if _, isVar := env.vars[id.Name]; !isVar {
+				if g := e.P.ghostGlobal(id.Name); g != nil {
+					idx := e.evalSpec(cur, old, n.I, env)
+					arr := e.heapGet(cur, ghostKeyOf(g), "(Array Int (_ BitVec 64))")
+					return Val{K: KInt, Ty: types.Typ[types.Int], T: sel(arr, idx.T)}
+				}
+			}
+		}
 		base := e.evalSpec(cur, old, n.X, env)
 		idx := e.evalSpec(cur, old, n.I, env)
 		switch base.K {
@@ -416,7 +425,7 @@ func (e *Engine) specField(cur *State, base Val, name string, x SExpr) Val {
 			}
 		}
 	}
-	e.specErr("no field %q in %s", name, specString(x))
+	e.specErr("no field %q in %s (base kind %d type %v)", name, specString(x), base.K, base.Ty)
 	return Val{K: KOpaque, T: e.fresh("specerr", "Int")}
 }
 
@@ -698,6 +707,16 @@ func (e *Engine) specCall(cur, old *State, n SCall, env *SpecEnv) Val {
 			return boolVal("(fp.isNaN " + arg(0).T + ")")
 		case "isInf":
 			return boolVal("(fp.isInfinite " + arg(0).T + ")")
+		case "before": // before(ghostGlobal, key): value in the entry state, key evaluated now
+			if id, ok := n.Args[0].(SIdent); ok {
+				if g := e.P.ghostGlobal(id.Name); g != nil {
+					idx := arg(1)
+					arr := e.heapGet(old, ghostKeyOf(g), "(Array Int (_ BitVec 64))")
+					return Val{K: KInt, Ty: types.Typ[types.Int], T: sel(arr, idx.T)}
+				}
+			}
+			e.specErr("before(ghostGlobal, key)")
+			return Val{K: KInt, Ty: types.Typ[types.Int], T: bvLit(0, 64)}
 		case "calls": // number of calls to a named callee on this path (needs `count-calls`)
 			if sl, ok := n.Args[0].(SLit); ok {
 				k := 0
@@ -858,6 +877,12 @@ func (e *Engine) specCall(cur, old *State, n SCall, env *SpecEnv) Val {
 				for i := 0; i < ms.Len(); i++ {
 					if ms.At(i).Obj().Name() == sel.Name {
 						if fn := e.P.prog.MethodValue(ms.At(i)); fn != nil {
+							if con := e.P.contractFor(fn); con != nil && con.has("stable") {
+								e.stableMode = true
+								r := e.pureResult(cur, "stable."+fn.String(), append([]Val{recv}, args...), e.resultTypeOfSig(fn.Signature), true)
+								e.stableMode = false
+								return r
+							}
 							if r, ok := e.pureSummary(cur, fn, append([]Val{recv}, args...), "true"); ok {
 								return r
 							}
